@@ -27,10 +27,7 @@ package s2
 //@   pure
 //@   ensures result == 0 || result == RobustSign(a, b, c)
 
-//@ func expensiveSign(a, b, c Point) Direction
-//@   assumed "numerical: the stable/exact stages return the oracle value"
-//@   pure
-//@   ensures result == RobustSign(a, b, c)
+// expensiveSign: see vc_sign_verif.go (its agreement with the oracle is a trusted postcondition there)
 
 //@ func VertexCrossing(a, b, c, d Point) bool
 //@   assumed "shared-vertex rule, a deterministic function of the four points (its case analysis is decided separately)"
